@@ -6,6 +6,7 @@
  * one line per reporting command, unbuffered):
  *   exit N | raise S | ignore S | sleep MS | spin MS | print TEXT | fault segv|ill|trap|fpe|bus
  *   sys NR A0..A5        raw syscall; args: number | s:TEXT (pointer to NUL-terminated text) |
+ *                        x:K:TEXT (TEXT with exactly K bytes before a page boundary) |
  *                        nonul:N (N non-NUL bytes ending exactly at an unmapped page) |
  *                        bad (unmapped address) | kern (kernel-space address) | fdcwd32 (0x00000000ffffff9c)
  *                        prints "sys NR = RET ERRNO"
@@ -91,6 +92,19 @@ static unsigned long argval(const char *s) {
         munmap(m + pages * pg, pg); /* hole right after */
         memset(m, 'A', pages * pg);
         return (unsigned long)(m + pages * pg - n);
+    }
+    if (!strncmp(s, "x:", 2)) { /* x:K:TEXT  NUL-terminated TEXT placed so that exactly K of its bytes lie before a page boundary (both pages mapped) */
+        char *e; long k = strtol(s + 2, &e, 0);
+        const char *t = (*e == ':') ? e + 1 : e;
+        long pg = sysconf(_SC_PAGESIZE);
+        size_t l = strlen(t) + 1;
+        long pages = (l + pg - 1) / pg + 2;
+        char *m = mmap(NULL, 2 * pages * pg, PROT_READ | PROT_WRITE, MAP_PRIVATE | MAP_ANONYMOUS, -1, 0);
+        if (m == MAP_FAILED) return 0;
+        if (k < 0) k = 0;
+        k %= pg;
+        memcpy(m + pages * pg - k, t, l);
+        return (unsigned long)(m + pages * pg - k);
     }
     if (!strncmp(s, "endpage:", 8)) { /* NUL-terminated string whose NUL is the last byte before a hole */
         const char *t = s + 8;
@@ -230,8 +244,8 @@ static void *thread_main(void *p) {
     return NULL;
 }
 
-static pthread_t threads[64];
-static int nthreads;
+static __thread pthread_t threads[64]; /* per creating thread: `join` waits for the threads this thread started */
+static __thread int nthreads;
 
 static int find_end(int i, int to, const char *open1, const char *open2, const char *open3, const char *close1, const char *close2) {
     int depth = 1;
